@@ -1,7 +1,7 @@
 (* Props/C16.v — property C16 (SRP linter applies its method, size and keyword thresholds exactly).
    Only statements closed by `exact <lemma>` and their Print Assumptions. *)
 From TL Require Import Lib.Base Lib.GenTypes Model.SrpTypes Gen.SrpGen Model.SrpSpec Model.Srp
-     Proofs.SrpBase Proofs.SrpEval Proofs.SrpCount Proofs.SrpMain Proofs.SrpCor.
+     Proofs.SrpBase Proofs.SrpEval Proofs.SrpCount Proofs.SrpMain Proofs.SrpCor Proofs.SrpParse.
 
 (* 1. For every quirk vector whose flags are off, every configuration and every admissible file of any of the
       four languages (any number of classes / structs + impl blocks, members of every kind, nested classes,
@@ -64,6 +64,29 @@ Theorem C16_message_exact : forall name line col mm ml ck mc loc kw r,
 Proof. exact unit_message. Qed.
 Print Assumptions C16_message_exact.
 
+(* 4'. Parse-back: a parser for the issue list reads exactly the counts and the limits in force back from the text
+      (decimal rendering round trip), so two messages of a class agree only if they state the same numbers. *)
+Theorem C16_issues_parse_back : forall mm ml ck mc loc kw,
+  parse_issues (join ", " (spec_issues mm ml ck mc loc kw))
+  = Some (if mm <? mc then Some (mc, mm) else None, if ml <? loc then Some (loc, ml) else None, ck && kw).
+Proof. exact issues_parse_back. Qed.
+Print Assumptions C16_issues_parse_back.
+
+Theorem C16_message_injective : forall name mm ml ck mc loc kw mm' ml' ck' mc' loc' kw',
+  spec_message name (spec_issues mm ml ck mc loc kw) = spec_message name (spec_issues mm' ml' ck' mc' loc' kw') ->
+  (if mm <? mc then Some (mc, mm) else None) = (if mm' <? mc' then Some (mc', mm') else None)
+  /\ (if ml <? loc then Some (loc, ml) else None) = (if ml' <? loc' then Some (loc', ml') else None)
+  /\ ck && kw = ck' && kw'.
+Proof. intros name mm ml ck mc loc kw mm' ml' ck' mc' loc' kw' H. exact (issues_injective _ _ _ _ _ _ _ _ _ _ _ _ (message_injective name _ _ H)). Qed.
+Print Assumptions C16_message_injective.
+
+(* 4''. str.strip() as modelled: a rendered line (whitespace indentation + text + trailing whitespace) strips to its text. *)
+Theorem C16_strip_render : forall a t b,
+  all_ws a = true -> all_ws b = true -> (match t with String c _ => is_ws c | EmptyString => false end) = false ->
+  strip (a ++ t ++ b) = rstrip t.
+Proof. exact strip_render. Qed.
+Print Assumptions C16_strip_render.
+
 (* 5. One violation per flagged class (struct), in order, none for the others. *)
 Theorem C16_one_violation_per_class : forall q c f,
   file_good f = true -> quirks_ok q f = true ->
@@ -79,7 +102,7 @@ Print Assumptions C16_one_violation_per_class.
 (* 6. Language overrides apply only to files of that language: setting another language's section never
       changes the report of a file (every quirk vector; also for the specification). *)
 Theorem C16_override_scope : forall q k v s rest f,
-  String.eqb (f_ext f) (ext_of (f_lang f)) = true -> other_lang_key (f_lang f) k = true ->
+  ext_ok (f_lang f) (f_ext f) = true -> other_lang_key (f_lang f) k = true ->
   report q (("srp", (k, VSec v) :: s) :: rest) f = report q (("srp", s) :: rest) f.
 Proof. exact override_scope. Qed.
 Print Assumptions C16_override_scope.
